@@ -40,10 +40,9 @@ func init() {
 		"(*os.File).WriteString": func(fr *frame, args []value) value {
 			return extFileWrite(fr, []value{args[0], strBytes(args[1])})
 		},
-		"os.Getwd": func(fr *frame, args []value) value {
-			fr.i.abort("os.Getwd is not modelled: location must not depend on the working directory")
-			return nil
-		},
+		// the working directory is some directory unrelated to the test file
+		// (the native twin changes into a temporary directory: vxrt.Chdir)
+		"os.Getwd": func(fr *frame, args []value) value { return tuple{"/cwd/elsewhere", nilErr()} },
 	} {
 		externals[k] = v
 	}
@@ -154,6 +153,9 @@ func extOpenFile(fr *frame, args []value) value {
 	if fs.isDirPath(i, dir, name) {
 		return tuple{nilFile, i.fsErr("open (is a directory)", args[0])}
 	}
+	if nameTooLong(name) {
+		return tuple{nilFile, i.fsErr("open (file name too long)", args[0])}
+	}
 	n := fs.find(i, dir, name)
 	if n == nil {
 		if flag&oCREATE == 0 || !fs.dirs[dir] {
@@ -180,6 +182,9 @@ func extReadFile(fr *frame, args []value) value {
 		return tuple{[]value(nil), i.fsErr("read", args[0])}
 	}
 	dir, name := i.splitPath(args[0])
+	if nameTooLong(name) {
+		return tuple{[]value(nil), i.fsErr("open (file name too long)", args[0])}
+	}
 	n := fs.find(i, dir, name)
 	if n == nil {
 		return tuple{[]value(nil), i.fsErr("open (no such file or directory)", args[0])}
@@ -197,6 +202,9 @@ func extWriteFile(fr *frame, args []value) value {
 		return i.fsErr("write", args[0])
 	}
 	dir, name := i.splitPath(args[0])
+	if nameTooLong(name) {
+		return i.fsErr("open (file name too long)", args[0])
+	}
 	if !fs.dirs[dir] || fs.isDirPath(i, dir, name) {
 		return i.fsErr("open (no such file or directory)", args[0])
 	}
